@@ -83,9 +83,7 @@ impl SvgElement {
 //@item src/events.rs :: impl SvgElement :: fn into_bytesstart
 //@ replace[R-opaque-type] <<<BytesStart<'static>>>> => <<<BytesStart>>>
 //@ replace[R-iter-vec] <<<for (k, v) in &self.attrs {>>> => <<<for (k, v) in attr_pairs(&self.attrs) {>>>
-//@ replace?[R-from] <<<Attribute::from((k.as_bytes(), v.as_bytes()))>>> => <<<Attribute::from_bytes((str_as_bytes(k.as_str()), str_as_bytes(v.as_str())))>>>
-//@ replace?[R-from] <<<Attribute::from((k.as_str(), v.as_str()))>>> => <<<Attribute::from_strs((k.as_str(), v.as_str()))>>>
-//@ cut[R-abstract] <<<            bs.push_attribute(Attribute::from((\n                "class">>> .. <<<            )));>>> => <<<            bs.push_attribute(Attribute::from_strs(("class", class_string(self.classes).as_str())));>>>
+//@ cut[R-abstract] <<<            bs.push_attribute(Attribute::from((\n                "class">>> .. <<<            )));>>> => <<<            bs.push_attribute(Attribute::from(("class", class_string(self.classes).as_str())));>>>
 //@ ensures
 //@ - forall|i: int| 0 <= i < r.attrs().len() ==> attr_safe((#[trigger] r.attrs()[i]).1)     @@C02.attr.escaped
 //@ loop 1
